@@ -281,6 +281,23 @@ def block(M, n):
     return [[M[c][r] for r in range(n)] for c in range(n)]
 
 
+def last_row(p):
+    """n x n identity whose last ROW is p (perspective partition of a homogeneous matrix)"""
+    n = len(p)
+    out = ident(n)
+    for c in range(n):
+        out[c][n - 1] = p[c]
+    return out
+
+
+def mprod(*Ms):
+    """left-to-right matrix product M0 * M1 * ..."""
+    out = Ms[0]
+    for M in Ms[1:]:
+        out = matmul(out, M)
+    return out
+
+
 def ndc_is(c, nx, ny, nz):
     """clip-space point c=(x,y,z,w) is in front of the eye (w > 0) and its perspective divide c.xyz/c.w is the
     normalised device coordinate (nx,ny,nz); stated without division"""
@@ -292,7 +309,12 @@ def proportional(a, b):
     return [a[i] * b[j] == a[j] * b[i] for i in range(len(a)) for j in range(i + 1, len(a))]
 
 
+def setcol(M, j, v):
+    """M with column j replaced by v (Cramer's rule: M x = v  =>  x[j] * det(M) == det(setcol(M, j, v)))"""
+    return [list(v) if c == j else list(M[c]) for c in range(ncols(M))]
+
+
 EXPORT = ['mat', 'vec', 'ident', 'matmul', 'matvec', 'vecmat', 'transpose', 'madd', 'msub', 'mscale', 'det', 'eqm', 'eqv',
           'dot', 'cross', 'norm2', 'vadd', 'vsub', 'vscale', 'vneg', 'qmul', 'qconj', 'qrot_matrix', 'rodrigues', 'embed4',
-          'rotX', 'rotY', 'rotZ', 'hom', 'ndc_is', 'proportional', 'ncols', 'nrows',
-          'vdiv', 'translation', 'diag', 'shear_elem', 'shear4_doc', 'block']
+          'rotX', 'rotY', 'rotZ', 'hom', 'ndc_is', 'proportional', 'setcol', 'ncols', 'nrows',
+          'vdiv', 'translation', 'diag', 'shear_elem', 'shear4_doc', 'block', 'last_row', 'mprod']
